@@ -50,7 +50,7 @@ var c15HookOnce sync.Once
 
 func c15SharedHook(r *Run) string {
 	p := filepath.Join(r.Scratch, "c15-hook.sh")
-	c15HookOnce.Do(func() { _ = os.WriteFile(p, []byte(c15HookScript), 0o755) })
+	c15HookOnce.Do(func() { _ = writeScript(p, []byte(c15HookScript), 0o755) })
 	return p
 }
 
